@@ -63,7 +63,7 @@ CHECKS = {
  "C15": ("exploration", "runtime monitors: crypto.Sample/RandIntn with crypto/rand.Reader replaced by a scripted word source (structure, rejection threshold, chi-square uniformity, full 2^32-word enumeration for n=3 in thorough), and rounds of the real MeasureClockOffsetSCION observed on the wire by per-path scripted servers, race detector on; plus a leg compiled into the service's own package (go test -c -overlay, nothing written to the repository) that asserts the wiring of a SCION reference clock: seven clients, each with a filter of its own",
          "Client->path relation per round reconstructed from the requests each path's server received (clients told apart by DSCP): injective, within the offer, sticky for interleaved clients, reset on withdrawal; result compared with the fault-tolerant midpoint of the participants' known offsets.",
          "hand-built paths and scripted servers instead of a SCION network; uniformity is statistical (p ~ 1e-9) plus exhaustive only for n=3; race reports are observations (O1), the property does not claim race freedom", "3/C15"),
- "C03": ("exploration", "runtime monitor of the real IP and SCION clients (basic and interleaved) against scripted loopback servers with per-exchange clock offsets, delays, loss, duplicates, stale replays and server switching; a spy filter exposes the four timestamps combined, kernel timestamps and the peer's clock readings share one machine clock; plus a leg with the repository's own request handler and store behind a scripted listener (duplicate of an interleaved request after its receive timestamp was issued again: known finding K2)",
+ "C03": ("exploration", "runtime monitor of the real IP and SCION clients (basic and interleaved) against scripted loopback servers with per-exchange clock offsets, delays, loss, duplicates, stale replays and server switching; a spy filter exposes the four timestamps combined, kernel timestamps and the peer's clock readings share one machine clock; plus a leg with the repository's own request handler and store behind a scripted listener (duplicate of an interleaved request after its receive timestamp was issued again: known finding K2) and a leg with a coarse client clock (readings repeat within an exchange), late kernel transmit timestamps (failpoint), every response duplicated and the server clock stepped after every exchange",
          "For every successful measurement the four timestamps are attributed to one recorded exchange, bracketed by causality against the server's readings and the next request, and the offset is compared with that exchange's true offset within half the round-trip delay; interleaved requests are checked on the wire for reference and age.",
          "loopback, software kernel timestamps; client clock in NTP era 0 (the mirror era case is C04's); tolerance of a few ns for NTP-timestamp truncation", "3/C03"),
 }
